@@ -129,3 +129,15 @@ impl Iterator for CountUpOk {
         self.next()
     }
 }
+
+/// R-SCALARCARRY (C05): a scalar kept as a big integer is summed with `add_with_carry` and the carry flag is dropped.
+pub fn dropped_bigint_carry(a: &mut ark_ff::BigInt<4>, b: &ark_ff::BigInt<4>) {
+    use ark_ff::BigInteger;
+    a.add_with_carry(b);
+}
+
+/// R-SCALARCARRY twin (must NOT match): the flag is handed back to the caller.
+pub fn dropped_bigint_carry_ok(a: &mut ark_ff::BigInt<4>, b: &ark_ff::BigInt<4>) -> bool {
+    use ark_ff::BigInteger;
+    a.add_with_carry(b)
+}
